@@ -4,6 +4,7 @@ import Wx.Job.C10c
 import Wx.Job.C06
 import Wx.Job.ApiThm
 import Wx.Job.C07t
+import Wx.Job.FaultsThm
 /-! # C07 — Every control completes and every ticket resolves
 
 > Every control sent to a live job is executed exactly once (or skipped as documented) and its ticket resolves no later
@@ -81,5 +82,27 @@ theorem graceful_ticket_by_deadline (behs : List Beh) (ops : List Op) (hok : ∀
 theorem grace_timer_never_overdue (behs : List Beh) (ops : List Op) :
     ∀ y ∈ runOps { st := { cfg := Fixes.all, behs := behs, hookSet := true, parked := true } } ops,
       y.st.alive = true → ∀ tm, y.st.timer = some tm → y.st.now ≤ tm.until_ := c07_timer_fresh behs ops
+
+/-- **… and when signalling or killing fails** (and when `wait()` fails): in the fault-aware task `Jf`
+    (Wx/Job/Faults.lean), for every fault script, every history of API-shaped sends and every race resolution, no flag is
+    lost — each one is queued, raised, or held by the timer / wait-for-end list / restart slot -/
+theorem no_flag_lost_under_faults (behs : List Beh) (faults : List Jf.Fault) (ops : List Op) (hok : ∀ o ∈ ops, OpOk o) :
+    ∀ z ∈ Jf.runOpsF (Jf.initialF Fixes.all behs faults) ops,
+      (∀ f ∈ z.x.st.issued, f ∈ z.x.st.pending ∨ z.x.st.isRaised f = true ∨ f ∈ z.x.st.held) ∧ Coupled z.x.st := by
+  intro z hz
+  obtain ⟨h1, h2⟩ := Jf.c07_faults behs faults ops hok z hz
+  refine ⟨fun f hf => ?_, h2⟩
+  rcases h1 f hf with h | h
+  · exact h
+  · cases h
+
+/-- a control whose kill / signal / wait call fails is over at once: its flag is raised in the very step that handles it -/
+theorem failed_call_raises_flag (x : Jf.FSt) (m : Msg) (o : Obs) : (Jf.failCtl x m o).st.isRaised m.done = true :=
+  Jf.failCtl_raises x m o
+
+/-- non-vacuity: signal() fails on a graceful stop — no timer is armed, the ticket resolves at once, nothing is held -/
+example : ((Jf.runOpsF (Jf.initialF Fixes.all [.ignores] [{ signal := true }])
+      [.send .normal [.start] true, .settle, .send .normal [.gracefulStop 15 100] true, .settle]).map
+        (fun z => (z.x.st.timer.isSome, z.x.st.log.any (fun e => e.2 == .signalFail 0 15), z.x.st.waiters.all (·.resolved)))) = [(false, true, true)] := by decide
 
 end Props.C07
